@@ -30,6 +30,9 @@ type c08Input struct {
 	Inject  []c08Inj `json:"inject"`  // byte strings spliced in at positions
 	Every   int      `json:"every"`   // additionally splice a 4-byte rune word every N bytes (0 = off)
 	LongRun int      `json:"longrun"` // insert one line of this many bytes without blanks (0 = off)
+	// TruncEnd: the input is cut to less than one read chunk, ends with a word and then the first byte(s) of a
+	// multi-byte sequence (a file read up to some byte count).
+	TruncEnd int `json:"truncend,omitempty"`
 }
 
 var c08Splices = []string{"é", "日本語", "😀", "\xff", "\xf0\x9f", "\xc3", " naïve ", " 😀😀 ", "\xe2\x80", "·", "©", "   ", "\xf4\x90\x80\x80", "—"}
@@ -70,6 +73,17 @@ func (in c08Input) build(cl *Classifier) []byte {
 		s := c08Splices[((j.Kind%len(c08Splices))+len(c08Splices))%len(c08Splices)]
 		b = append(b[:p:p], append([]byte(s), b[p:]...)...)
 	}
+	if in.TruncEnd > 0 {
+		if len(b) > 900 {
+			b = b[:900]
+		}
+		if k := bytes.LastIndexByte(b, ' '); k > 100 {
+			b = b[:k]
+		}
+		b = bytes.TrimRight(b, " \t\r\n.,;:()\"'")
+		b = append(b, [][]byte{{0xc3}, {0xe2, 0x80}, {0xf0, 0x9f}, {0xc5}}[in.TruncEnd%4]...)
+		return b
+	}
 	if in.LongRun > 0 {
 		n := in.LongRun
 		if n > 200000 {
@@ -88,6 +102,10 @@ func genC08Input(t *rapid.T) c08Input {
 	n := lib.IntN(t, 0, 8, "ninject")
 	for i := 0; i < n; i++ {
 		in.Inject = append(in.Inject, c08Inj{Pos: lib.IntN(t, 0, 50000, "injPos"), Kind: lib.IntN(t, 0, len(c08Splices)-1, "injKind")})
+	}
+	if lib.IntN(t, 0, 5, "truncEnd") == 0 {
+		in.TruncEnd = lib.IntN(t, 1, 8, "truncEndKind")
+		in.Every, in.Inject = 0, nil
 	}
 	if lib.IntN(t, 0, 9, "longrun") == 0 {
 		in.LongRun = lib.PickInt(t, []int{1019, 1020, 1023, 1024, 1025, 2047, 2048, 5000, 70000}, "longrunN")
@@ -180,6 +198,14 @@ func c08FragCheck(ci interface{}) lib.Outcome {
 	in := c.In.build(cl)
 	want := cl.Match(in)
 	ws := resultString(want)
+	if c.In.TruncEnd > 0 {
+		// other documents are classified in between; what they leave behind must not complete the cut-off sequence
+		cl.Match([]byte(strings.Repeat("é", 700)))
+		if g := cl.Match(in); resultString(g) != ws {
+			return lib.Outcome{Violation: fmt.Sprintf("input ending in a cut-off multi-byte sequence (%d bytes): Match differs after another document was matched in between\n%s", len(in), diffResults(want, g))}
+		}
+		cl.Match([]byte("x" + strings.Repeat("é", 700)))
+	}
 	got, err := cl.MatchFrom(&schedReader{data: append([]byte{}, in...), sched: c.Sched, eofWithData: c.EOFWithData, zeroReads: c.ZeroReads})
 	desc := fmt.Sprintf("input %s (typo=%v every=%d inject=%d longrun=%d, %d bytes)", c.In.X.describe(), c.In.Typo, c.In.Every, len(c.In.Inject), c.In.LongRun, len(in))
 	if err != nil {
@@ -210,7 +236,10 @@ func c08FragCheck(ci interface{}) lib.Outcome {
 	if c.In.LongRun > 0 {
 		classes = append(classes, "long-line")
 	}
-	o := lib.Outcome{Classes: classes, Nontrivial: len(in) > 1020 && multi}
+	if c.In.TruncEnd > 0 {
+		classes = append(classes, "ends-in-cut-off-multibyte-sequence")
+	}
+	o := lib.Outcome{Classes: classes, Nontrivial: (len(in) > 1020 && multi) || c.In.TruncEnd > 0}
 	if o.Nontrivial {
 		o.FP = fmt.Sprintf("%s|%v|%d|%v|%v", desc, c.Sched, c.Pad, c.EOFWithData, c.ZeroReads)
 		o.Sample = map[string]interface{}{"input": desc, "schedule": c.Sched, "pad": c.Pad, "eofWithData": c.EOFWithData, "zeroReads": c.ZeroReads, "matches": len(want.Matches)}
